@@ -92,7 +92,8 @@ var applyUnit = ev.Unit[ApplyCase]{
 			g.NearMiss = 10
 		}
 		ops := g.Seq(t, doc, ref.Opts{Neg: true}, 1, 8, 0)
-		return ApplyCase{Doc: doc.Text(false), Patch: ref.OpsText(ops, false)}
+		dt, pt := gen.Texts(t, doc, ref.OpsTree(ops), false, "sp")
+		return ApplyCase{Doc: dt, Patch: pt}
 	},
 	Check: func(c ApplyCase) ev.Verdict {
 		doc, ops, why := lib.ParseCase(c.Doc, c.Patch)
@@ -235,7 +236,8 @@ var mergeUnit = ev.Unit[MergeCase]{
 		if gen.OneIn(t, 5, "indep") {
 			patch = gen.Default.Object(3).Draw(t, "ipatch")
 		}
-		return MergeCase{Doc: doc.Text(false), Patch: patch.Text(false)}
+		dt, pt := gen.Texts(t, doc, patch, false, "sp")
+		return MergeCase{Doc: dt, Patch: pt}
 	},
 	Check: func(c MergeCase) ev.Verdict {
 		doc, err1 := ref.Parse([]byte(c.Doc))
